@@ -34,7 +34,8 @@ pk="-p async-graphql"
 grep -q "^+++ b/parser" SEED/patch.diff && pk="$pk -p async-graphql-parser"
 grep -q "^+++ b/value" SEED/patch.diff && pk="$pk -p async-graphql-value"
 grep -q "^+++ b/derive" SEED/patch.diff && pk="$pk -p async-graphql-derive"
-timeout 3000 cargo test --offline $pk ${FEATURES:+--features $FEATURES} --lib --bins --tests 2>&1 | grep -E "^test result|FAILED|failed" | sort | uniq -c | tail -8 >> $log
+if [ -n "${FAST:-}" ]; then scope="--lib"; else scope="--lib --bins --tests"; fi
+timeout 3000 cargo test --offline $pk ${FEATURES:+--features $FEATURES} $scope 2>&1 | grep -E "^test result|FAILED|failed" | sort | uniq -c | tail -8 >> $log
 t=${PIPESTATUS[0]}
 git checkout -q -- .
 echo "RESULT demo_without=$d0 demo_with=$d1 tests_with=$t" | tee -a $log
